@@ -256,4 +256,36 @@ example : ∃ env : Env, (∀ o, Clean (env.internal o)) ∧ isCc 0xE000 = false
     · left; decide +kernel
     · right; right; left; rfl
 
+-- audit round 6 (b-c44): non-vacuity witnesses appended by the cross-auditor
+-- the generated tables the table theorems quantify over are not empty
+example : ccList.length = 65 ∧ cfListBmp.length ≥ 30 ∧ prettifyReturns.length ≥ 2 ∧ writeSites.length = 1 ∧
+    ctrlTable.length ≥ 256 := by decide +kernel
+-- a real call site of dumper.py carries attacker text through `esc` …
+example : ∃ l ∈ echoLines, l.1 = "websocket_end" ∧ Piece.field "f.websocket.close_reason" Fmt.esc ∈ l.2 := by
+  decide +kernel
+-- … and `dumper_output_clean` applied to that call site with an attacker close reason `ESC ] 0 ; x BEL`, styled:
+example :
+    let env : Env := ⟨fun _ => [0x1b, 0x5d, 0x30, 0x3b, 0x78, 0x07], fun _ => [], id, fun _ => [0x31, 0x30, 0x30, 0x30]⟩
+    let out := [0xE000, 0x5b, 0x31, 0x6d] ++ escapeControl true (env.text "f.websocket.close_reason") ++ [10]
+    ∃ l ∈ echoLines, l.1 = "websocket_end" ∧ MayEcho env 0xE000 l.2 out ∧ Clean out ∧ out.length = 11 := by
+  intro env out
+  have hex : ∃ l ∈ echoLines, l.1 = "websocket_end" ∧ Piece.field "f.websocket.close_reason" Fmt.esc ∈ l.2 := by
+    decide +kernel
+  obtain ⟨l, hl, hname, hp⟩ := hex
+  have hmay : MayEcho env 0xE000 l.2 out := by
+    intro c hc
+    simp only [out, List.mem_append, List.mem_cons, List.not_mem_nil, or_false] at hc
+    rcases hc with ((rfl | rfl | rfl | rfl) | hc) | rfl
+    · right; right; right; decide
+    · right; right; right; decide
+    · right; right; right; decide
+    · right; right; right; decide
+    · left
+      simp only [lineChars, List.mem_flatMap]
+      exact ⟨_, hp, by simpa [renderPiece, fmtApply] using hc⟩
+    · right; right; left; rfl
+  refine ⟨l, hl, hname, hmay, ?_, by decide +kernel⟩
+  exact dumper_output_clean env 0xE000 (by decide)
+    (by intro o c hc; simp [env] at hc; rcases hc with rfl | rfl <;> decide) l hl _ hmay
+
 end MitmVerif.Props.C49
